@@ -31,7 +31,7 @@ FUNCTIONS = [
 MUST_REACH = ["mbox.Mailbox._mbox_pattern_to_re", "mbox.Mailbox.list", "mbox.Mailbox._list_simple", "mbox.Mailbox.create", "mbox.Mailbox.delete", "mbox.Mailbox.rename", "mbox._helper_rename_folder", "client.Authenticated.do_list"]
 BOUNDS = {
     "quick": {"patterns": "all strings <= 3 over {a, b, /, %, *, ., +, SP, (} with references '' and 'a/' (each an equivalence query over names of unbounded length)", "histories": "2 commands from a menu of 20 namespace commands, then 10 LIST/LSUB probes", "rename_step": "every subset of 7 names {a, a/a, a/b, a/ab, ab, b, a/b/a} created, then one of 8 RENAMEs, then the probes"},
-    "thorough": {"patterns": "length <= 4", "histories": "3 commands when the first is a CREATE (7 of the 20 menu entries), 2 commands with an orderly restart inserted at a symbolic position for every first command"},
+    "thorough": {"patterns": "length <= 4", "histories": "3 commands when the first is a CREATE (7 of the 20 menu entries) and the second a CREATE/DELETE/RENAME (12 entries), 2 commands with an orderly restart inserted at a symbolic position for every first command"},
 }
 SYMBOLIC = ["mailbox name witness (z3 strings, unbounded)", "history selectors", "restart position"]
 REALISED = ["history selectors are enumerated by the decision tree"]
@@ -159,6 +159,7 @@ def history(c2: int, c3: int, rs: int) -> bool:
     pre: core.PARAMS["k"] >= 3 or (c3 == 0 and rs <= 2)
     pre: core.PARAMS["restart"] or rs == 0
     pre: core.PARAMS.get("rsv") is None or rs == core.PARAMS["rsv"]
+    pre: core.PARAMS.get("c2") is None or c2 == core.PARAMS["c2"]
     post: _
     """
     return held(_history, {"c1": core.PARAMS["c1"], "c2": core.pick(c2, 0, 20), "c3": core.pick(c3, 0, 20) if core.PARAMS["k"] >= 3 else 0, "rs": core.pick(rs, 0, 4) if core.PARAMS["restart"] else 0})
@@ -290,7 +291,8 @@ def jobs(tier):
             if MENU[c1][0] == "create":
                 # three-command histories start with a CREATE (anything else on the initial namespace is a refusal,
                 # which two-command histories already cover from the same state)
-                js.append({"name": f"history[k=3,c1={c1}]", "fn": "history", "params": {"k": 3, "c1": c1, "restart": False}, "timeout": 3000, "per_path": 120, "unblock": UNBLOCK})
+                for c2 in range(12):  # second command: the creates, deletes and renames of the menu
+                    js.append({"name": f"history[k=3,c1={c1},c2={c2}]", "fn": "history", "params": {"k": 3, "c1": c1, "c2": c2, "restart": False}, "timeout": 1200, "per_path": 120, "unblock": UNBLOCK})
             js.append({"name": f"history[k=2,c1={c1}]", "fn": "history", "params": {"k": 2, "c1": c1, "restart": False}, "timeout": T, "per_path": 120, "unblock": UNBLOCK})
             js.append({"name": f"history[k=2,restart,c1={c1}]", "fn": "history", "params": {"k": 2, "c1": c1, "restart": True}, "timeout": T, "per_path": 120, "unblock": UNBLOCK})
     for pair in range(len(PAIRS)):
